@@ -990,7 +990,7 @@ func main() {
 	legacyPruneWitness(e)
 	unorderedCrashWitness(e)
 	straceWitness(e)
-	total := e.N(60, 2000)
+	total := e.N(60, 1000)
 	for i := 0; i < total; i++ {
 		run(e, gen(e.Rng.Fork()), n)
 		n++
